@@ -93,8 +93,8 @@ structure CInv (E : Env) (s : St) : Prop where
   p1 : E.patient = true → s.closeSent = true → s.a.qLo = s.a.segs.length
   p2 : E.patient = true → s.wClosed = true → s.closeSent = true
   p3 : E.patient = true → 0 < s.netClose → s.closeSent = true
-  p4 : E.patient = true → s.rClosed = true → s.closeSent = true
-  o1 : E.patient = true → E.ordered = true → s.rClosed = true → s.a.nextRecv = s.a.segs.length
+  p4 : E.patient = true → E.kept = true → s.rClosed = true → s.closeSent = true
+  o1 : E.patient = true → E.ordered = true → E.kept = true → s.rClosed = true → s.a.nextRecv = s.a.segs.length
 
 theorem cinv_init (E : Env) : CInv E init := by
   refine ⟨Arq.inv_init, ?_, ?_, ?_, ?_, ?_, ?_, ?_, ?_, ?_, ?_⟩ <;> simp [init, Arq.init]
@@ -125,7 +125,7 @@ theorem step_cinv {E : Env} {s t : St} (h : CInv E s) (st : Step E s t) : CInv E
       Arq.accept_inv (.write p) h.arq (by simp [Arq.accept])
     refine ⟨ha, h.drained, h.hand, h.readLe, h.eofI, h.sentReq, ?_, h.p2, h.p3, h.p4, ?_⟩
     · intro _ hs; rw [hcs] at hs; exact absurd hs (by simp)
-    · intro hp _ hr; have := h.p4 hp hr; rw [hcs] at this; exact absurd this (by simp)
+    · intro hp _ hk hr; have := h.p4 hp hk hr; rw [hcs] at this; exact absurd this (by simp)
   | sendNew p hc hp =>
     have hlen : s.a.qLo < s.a.segs.length := (List.getElem?_eq_some_iff.mp hp).1
     have ha : Arq.Inv { s.a with qLo := s.a.qLo + 1, netData := ⟨s.a.qLo, p⟩ :: s.a.netData,
@@ -133,8 +133,8 @@ theorem step_cinv {E : Env} {s t : St} (h : CInv E s) (st : Step E s t) : CInv E
       Arq.accept_inv (.send s.a.qLo p) h.arq (by simp [Arq.accept, hp])
     refine ⟨ha, h.drained, h.hand, h.readLe, h.eofI, h.sentReq, ?_, h.p2, h.p3, h.p4, ?_⟩
     · intro hp' hs; have := h.p1 hp' hs; omega
-    · intro hp' ho hr
-      have := h.p1 hp' (h.p4 hp' hr); omega
+    · intro hp' ho hk hr
+      have := h.p1 hp' (h.p4 hp' hk hr); omega
   | retransmit k p hc hk hp =>
     have hne : k ≠ s.a.qLo := by omega
     have ha : Arq.Inv { s.a with netData := ⟨k, p⟩ :: s.a.netData, sent := ⟨k, p⟩ :: s.a.sent } :=
@@ -199,8 +199,8 @@ theorem step_cinv {E : Env} {s t : St} (h : CInv E s) (st : Step E s t) : CInv E
         unfold Arq.recv
         rw [hmono.2.2.1, hmono.2.1]
         exact h.p1 hp hs
-      · intro hp hrc; exact absurd hrc hr
-      · intro _ _ hrc; exact absurd hrc hr
+      · intro hp _ hrc; exact absurd hrc hr
+      · intro _ _ _ hrc; exact absurd hrc hr
   | ack a ha' =>
     have ha : Arq.Inv { s.a with netAck := a :: s.a.netAck, acked := a :: s.a.acked } :=
       Arq.accept_inv (.ack a) h.arq (by simp [Arq.accept, ha'])
@@ -216,7 +216,7 @@ theorem step_cinv {E : Env} {s t : St} (h : CInv E s) (st : Step E s t) : CInv E
     exact ⟨h.arq, h.drained, h.hand, h.readLe, h.eofI, fun _ => rfl, h.p1, h.p2, h.p3, h.p4, h.o1⟩
   | sendClose hcr hc hq =>
     refine ⟨h.arq, h.drained, h.hand, h.readLe, h.eofI, fun _ => hcr, fun _ _ => hq, fun _ _ => rfl,
-      fun _ _ => rfl, fun _ _ => rfl, h.o1⟩
+      fun _ _ => rfl, fun _ _ _ => rfl, h.o1⟩
   | forceClose hp hcr hc =>
     refine ⟨h.arq, h.drained, h.hand, h.readLe, h.eofI, fun _ => hcr, ?_, ?_, ?_, ?_, ?_⟩ <;>
       (intro hp'; rw [hp] at hp'; exact absurd hp' (by simp))
@@ -236,13 +236,18 @@ theorem step_cinv {E : Env} {s t : St} (h : CInv E s) (st : Step E s t) : CInv E
     refine ⟨h.arq, h.drained, h.hand, h.readLe, ?_, h.sentReq, h.p1, h.p2, ?_, ?_, ?_⟩
     · intro he; exact ⟨rfl, (h.eofI he).2⟩
     · intro hp _; exact h.p3 hp hn
-    · intro hp _; exact h.p3 hp hn
-    · intro hp hord _
+    · intro hp _ _; exact h.p3 hp hn
+    · intro hp hord _ _
       have hq := h.p1 hp (h.p3 hp hn)
       have := all_handed h.drained h.hand (ho hord)
       have := h.arq.order
       simp only
       omega
+  | localClose hk =>
+    refine ⟨h.arq, h.drained, h.hand, h.readLe, ?_, h.sentReq, h.p1, h.p2, h.p3, ?_, ?_⟩
+    · intro he; exact ⟨rfl, (h.eofI he).2⟩
+    · intro _ hk'; rw [hk] at hk'; exact absurd hk' (by simp)
+    · intro _ _ hk'; rw [hk] at hk'; exact absurd hk' (by simp)
   | read hlt =>
     refine ⟨h.arq, h.drained, h.hand, ?_, ?_, h.sentReq, h.p1, h.p2, h.p3, h.p4, h.o1⟩
     · simp only; omega
@@ -278,6 +283,7 @@ theorem step_asIs {E : Env} {s t : St} (st : Step E s t) : Step asIs s t := by
   | dropClose h => exact Step.dropClose s h
   | dupClose h => exact Step.dupClose s h
   | recvClose h ho => exact Step.recvClose s h (by intro hf; simp [asIs] at hf)
+  | localClose hk => exact Step.localClose s rfl
   | read h => exact Step.read s h
   | readEOF h hc => exact Step.readEOF s h hc
 
